@@ -1,6 +1,6 @@
 ---------------------------- MODULE MC_OmsPartition ----------------------------
-(* C15 part A, bounded: every line graph on 3 ROADM sites (each site touched by a link), every link being    *)
-(* one of four chain kinds, at most one link one-way.  The module builds the typed graph and its expected    *)
+(* C15 part A, bounded: every line graph on 3 ROADM sites (each site touched by a link), every directed   *)
+(* link being one of four chain kinds (the two directions may differ), at most one link one-way.  The module builds the typed graph and its expected    *)
 (* OMS list itself (Partition), states the partition clauses on it (consistency of the oracle) and hands     *)
 (* every topology to the harness, which designs the real network and lets Trace_OmsMap judge build_oms_list.  *)
 EXTENDS Integers, Sequences, FiniteSets, TLC, Json
@@ -12,15 +12,16 @@ Kinds == {"F", "FF", "FuF", "FAF"}       \* fibre | fibre fibre | fibre fused fi
 VARIABLES links, kind, oneway
 vars == <<links, kind, oneway>>
 Touched == {p[1] : p \in links} \cup {p[2] : p \in links}
+DirOf(L, O) == {<<p[1], p[2]>> : p \in L} \cup {<<p[2], p[1]>> : p \in L \ O}
 Init == /\ links \in (SUBSET Pairs) \ {{}}
         /\ Touched = Sites
-        /\ kind \in [links -> Kinds]
         /\ oneway \in {{}} \cup {{p} : p \in links}
+        /\ kind \in [DirOf(links, oneway) -> Kinds]        \* each direction has its own chain (asymmetric lines)
 Next == FALSE /\ UNCHANGED vars
 
 \* directed links and the chain of line elements each carries: element = <<a, b, position, type>>
-Directed == {<<p[1], p[2]>> : p \in links} \cup {<<p[2], p[1]>> : p \in links \ oneway}
-KindOf(d) == IF <<d[1], d[2]>> \in links THEN kind[<<d[1], d[2]>>] ELSE kind[<<d[2], d[1]>>]
+Directed == DirOf(links, oneway)
+KindOf(d) == kind[d]
 Chain(d) == CASE KindOf(d) = "F"   -> <<"Fiber">>
               [] KindOf(d) = "FF"  -> <<"Fiber", "Fiber">>
               [] KindOf(d) = "FuF" -> <<"Fiber", "Fused", "Fiber">>
